@@ -31,6 +31,7 @@ func nameRoles() []nameRole {
 		{"local-next-to-callee-local", "func r() int {\n\tn := 20\n\treturn n\n}\nfunc f() int {\n\tNAME := 2\n\tk := r()\n\treturn k + NAME\n}\nprint(f())\n"},
 		{"second-name-of-short-definition", "Cap := 10\nstep, NAME := 1, 2\nprint(Cap, step, NAME)\nCap = Cap + NAME\nprint(Cap, NAME)\n"},
 		{"local-next-to-parameter", "func f(Rst int, d int) int {\n\tq, NAME := Rst / d, Rst % d\n\treturn q + NAME + Rst\n}\nprint(f(7, 2))\n"},
+		{"target-of-multi-result-call", "func dm(a int, b int) (int, int) {\n\treturn a / b, a % b\n}\nfunc use() int {\n\tNAME, rest := dm(7, 2)\n\tNAME, rest = dm(NAME + 9, rest + 1)\n\treturn NAME * 10 + rest\n}\nNAME, r2 := dm(9, 4)\nprint(NAME, r2, use())\n"},
 		{"slice-variable", "NAME := []string{\"a\"}\nNAME[1] = \"b\"\nc := []string{}\nprint(copy(c, NAME), len(NAME), NAME[1], c[0])\n"},
 	}
 }
